@@ -271,6 +271,32 @@ def fam_pending_operands():
     return pt.Return(pt.Int(1000) + tri(pt.Int(4)) + pt.Int(7) == pt.Int(1017)), [("tri", 1, 1)]
 
 
+def fam_elseif_tail():
+    """value-less routines whose body ENDS in an If / ElseIf / Else ladder in which only SOME branches leave the routine: the branch that
+    falls through needs the closing `retsub` all the same (first branch, a middle branch, the last branch falling through)"""
+    def ladder(kind, which):
+        br = [pt.App.globalPut(pt.Bytes("seen"), kind) if i == which else (pt.Return() if i % 2 == 0 else pt.Reject()) for i in range(3)]
+        return pt.If(kind == pt.Int(0)).Then(br[0]).ElseIf(kind == pt.Int(1)).Then(br[1]).Else(br[2])
+
+    @pt.Subroutine(NONE)
+    def rec0(kind):
+        return ladder(kind, 0)
+
+    @pt.Subroutine(NONE)
+    def rec1(kind):
+        return ladder(kind, 1)
+
+    @pt.Subroutine(NONE)
+    def rec2(kind):
+        return ladder(kind, 2)
+
+    @pt.Subroutine(U64)
+    def after(x):
+        return x + pt.Int(1)
+    return (pt.Seq(rec0(pt.Txn.fee()), rec1(pt.Txn.fee()), rec2(pt.Txn.fee()), pt.Return(after(pt.Int(1)))),
+            [("rec0", 1, 0), ("rec1", 1, 0), ("rec2", 1, 0), ("after", 1, 1)])
+
+
 def fam_none_rec():
     @pt.Subroutine(NONE)
     def down(n, tag):
@@ -390,7 +416,7 @@ def fam_restore_after_join():
         pt.Pop(h(pt.Int(2))), pt.Approve()), [("h", 1, 1)])
 
 
-REC_FAMILIES = [fam_restore_after_join, fam_explicit_return_abi_locals, fam_anytype, fam_fact, fam_fib_locals, fam_even_odd, fam_pending_operands, fam_none_rec, fam_bytes_rec, fam_byref,
+REC_FAMILIES = [fam_elseif_tail, fam_restore_after_join, fam_explicit_return_abi_locals, fam_anytype, fam_fact, fam_fib_locals, fam_even_odd, fam_pending_operands, fam_none_rec, fam_bytes_rec, fam_byref,
                 fam_mixed_kinds, fam_mixed_kinds2]
 
 
